@@ -114,6 +114,8 @@ def domain_skip(spec, table, semantics=True, cross_backend=True):
     not the verdict)"""
     if not table["columns"]:
         return "zero-column table (a polars frame without columns cannot carry a row count)"
+    if len({t["name"] for t in table["columns"]}) != len(table["columns"]):
+        return "repeated column labels (not a polars frame)"
     if any(c.get("dtype") not in SHARED for c in spec["columns"]):
         return "dtype outside the shared vocabulary"
     for t in table["columns"]:
